@@ -105,6 +105,12 @@ Die(p, how) ==
         /\ swept' = [t \in 1..MaxT |-> swept[t] \/ (h[t] = {} /\ tAlive[t] /\ holders[t] # {}) \/ (restart /\ t = tStarted + 1)]
   /\ last' = <<"die", p, how>> /\ UNCHANGED <<parent, trk, conf>>
 
+\* a tracked file disappears behind the tracker's back (its user deleted it and never unregistered): the tracker's later
+\* attempt to destroy it fails, which must not keep it from destroying everything else it still knows
+Vanish(i) == /\ Tick /\ i \in 1..Len(res) /\ res[i].kind = "file" /\ res[i].exists /\ res[i].registered
+             /\ res' = [res EXCEPT ![i] = [@ EXCEPT !.exists = FALSE]]
+             /\ last' = <<"vanish", i>> /\ UNCHANGED <<parent, alive, trk, tAlive, tStarted, holders, swept, conf>>
+
 SignalTracker(t, sig) == /\ Tick /\ tAlive[t] /\ last' = <<"signal", t, sig>>
                          /\ UNCHANGED <<parent, alive, trk, tAlive, tStarted, holders, swept, res, conf>>
 KillTracker(t) == /\ Tick /\ tAlive[t] /\ ~swept[t] /\ holders[t] # {}
@@ -113,7 +119,7 @@ KillTracker(t) == /\ Tick /\ tAlive[t] /\ ~swept[t] /\ holders[t] # {}
 
 Next == \/ \E p, c \in Procs : Spawn(p, c)
         \/ \E p \in Procs, k \in {"file", "sem"} : Track(p, k)
-        \/ \E i \in 1..(MaxRes + Cardinality(Procs)) : Collect(i)
+        \/ \E i \in 1..(MaxRes + Cardinality(Procs)) : Collect(i) \/ Vanish(i)
         \/ \E p \in Procs, how \in {"exit", "kill"} : Die(p, how)
         \/ \E t \in 1..MaxT : KillTracker(t) \/ (\E s \in {"INT", "TERM"} : SignalTracker(t, s))
 Spec == Init /\ [][Next]_vars
